@@ -146,12 +146,12 @@ def sig(b):
 
 def run(ctx, cases_override=None):
     thorough = ctx.thorough
-    giveup = ("InsertGiveUp",)
+    giveup = ("InsertGiveUp", "CompactRefuse")
     stage_a = [
         lambda: ctx.mc("MC_MpqHashTable", cfg="MC_MpqHashTable_T" if thorough else "MC_MpqHashTable", timeout=1500,
                        allow_uncovered=giveup, workers=4),
         lambda: ctx.mc("MC_MpqHashTable", cfg="MC_MpqHashTable_LT" if thorough else "MC_MpqHashTable_L", timeout=900, workers=2,
-                       allow_uncovered=giveup + ("AddRefuseFull", "RenameRefuseDst")),
+                       allow_uncovered=("InsertGiveUp", "AddRefuseFull", "RenameRefuseDst")),
         lambda: expect_violation(ctx, "MC_MpqHashTable_codeA", "Invariant NoDamage is violated"),
         lambda: expect_violation(ctx, "MC_MpqHashTable_codeB", "Invariant ProbeBounded is violated"),
         lambda: expect_violation(ctx, "MC_MpqHashTable_codeC", "Action property AtomicRefines is violated"),
